@@ -10,7 +10,7 @@ EXPLANATION = ('Guard, funnel, sibling and state-table rules over ln::peer_handl
 	'(their_features written only at the end of the Init arm, a second Init and a non-Init first message end in Err), handler trait methods are invoked only downstream of that gate; in '
 	'do_read_event the results of the three handshake acts, decrypt_length_header, decrypt_message and wire::read are all branched on and the decrypted body reaches handle_message only on '
 	'their success; sender and receiver rotate keys at the same counter value (>= 1000), reset the nonce to 0 and advance the nonce by exactly one per AEAD operation, the receiver only after '
-	'a successful authentication; a failed MAC yields Err; message encryption / decryption is only possible in NoiseState::Finished; oversized messages are refused on both sides. Decides '
+	'a successful authentication; a failed MAC yields Err; message encryption / decryption is only possible in NoiseState::Finished; oversized messages are refused on both sides. Also: inbound reassembly returns to the expect-a-header state after every decrypted body, including the ignore-and-continue arms, and to the expect-a-body state after every header. Decides '
 	'these shapes on all paths; cryptographic correctness, stream reassembly arithmetic and panic freedom are not decided.')
 ASSUMPTIONS = ['ChaCha20Poly1305 / HKDF / ECDH primitives are correct', 'the SocketDescriptor delivers bytes in order']
 
